@@ -119,10 +119,11 @@ def _(g, r):
 
 @op('unclosed-starttag')
 def _(g, r):
-    sp = _pick(r, _spans(g, 'starttag'))
+    t = g['text']
+    # the tag must run into markup, not into character data that happens to contain a '>'
+    sp = _pick(r, [x for x in _spans(g, 'starttag') if t[x[1]:x[1] + 1] == '<'])
     if not sp:
         return None
-    t = g['text']
     return t[:sp[1] - 1] + t[sp[1]:], ''
 
 
